@@ -8,7 +8,7 @@ from props import c06
 
 ID = "C15"
 BUDGET = {"quick": 1500, "thorough": 12000}
-PROFILE = gen.profile(retract="matched", home_mid=False, arcs=1, ext_w=5, at_w=1, maxlen=30)
+PROFILE = gen.profile(retract="matched", home_mid=True, arcs=1, ext_w=5, at_w=1, maxlen=30)
 RULE = ("A C03/C06-style program (default or generated extended-code modes, enter/exit scripts, matched retractions, inch / "
         "relative) run through the plugin's hooks, ending inside or outside an episode, with script-hook invocations inserted "
         "mid-program and appended at the end: gcode/afterPrintDone (repeated), other script names and types, and invocations "
